@@ -47,6 +47,9 @@ def forms(pid, rng):
     elif pid == SSH:
         out.append((b"SSH-2.0-OpenSSH_9.0\r\n", set()))
         out.append((b"SSH-1.99-x y\r\n", set()))
+        out.append((b"SSH-2.00-x\r\n", set()))
+        out.append((b"SSH-2.0.1-x\r\n", set()))
+        out.append((b"SSH-1.995-y z\r\n", set()))
     elif pid == GHOST:
         out.append((b"Gh0st" + rb(8), set(range(5, 13))))
     elif pid == STUN:
@@ -407,7 +410,7 @@ def run(tier, seed):
                 print("LEARNED-EDGES " + json.dumps(le, sort_keys=True))
     v.extra.pop("learned_edges", None)
     states, trans = v.extra.get("states", 0), v.extra.get("transitions", 0)
-    return v.finish(RULE, floor=300, assumptions=ASSUME, exhaustive=True,
+    return v.finish(RULE, floor=100, assumptions=ASSUME, exhaustive=True,
                     explanation="exhaustive: true refers to the matcher-level sub-space only (%d product states x (256 bytes + end-of-input) = %d real "
                                 "matcher steps); the frame-level and segmentation parts are witnesses derived from it" % (states, trans),
                     more={"states": states, "transitions": trans})
